@@ -86,10 +86,29 @@ def _mk_call(func, args, kwargs):
     if func[0] == 'attr' and func[2] == 'get' and len(args) == 1 and not kwargs \
             and args[0][0] != 'starred':
         return ('sub', func[1], args[0])
+    # dict(a=1, b=2) == {'a': 1, 'b': 2}
+    if func in (('global', 'dict'), ('name', 'dict'), ('pname', 'dict'), ('global', 'builtins.dict')) \
+            and not args and kwargs and all(k is not None for (k, v) in kwargs):
+        return _mk_dict([(('const', k), v) for (k, v) in kwargs])
     # x.transpose() == np.transpose(x)
     if func[0] == 'attr' and func[2] == 'transpose' and not args and not kwargs:
         return ('call', ('global', 'numpy.transpose'), (func[1],), ())
     return ('call', func, tuple(args), tuple(kwargs))
+
+
+def _mk_dict(pairs):
+    if all(k[0] == 'const' for (k, v) in pairs):
+        pairs = sorted(pairs, key=lambda kv: repr(kv[0][1]))
+    return ('dict', tuple(pairs))
+
+
+def term_kwargs(t):
+    """{name: value term} of a call's keyword arguments or of a constant-key dict term."""
+    if t[0] == 'call':
+        return dict((k, v) for (k, v) in t[3] if k is not None)
+    if t[0] == 'dict':
+        return dict((k[1], v) for (k, v) in t[1] if k[0] == 'const')
+    return {}
 
 
 def to_term(e, sc):
@@ -154,7 +173,7 @@ def to_term(e, sc):
         pairs = []
         for k, v in zip(e.keys, e.values):
             pairs.append((to_term(k, sc) if k is not None else ('starred', NONE), to_term(v, sc)))
-        return ('dict', tuple(pairs))
+        return _mk_dict(pairs)
     if T is ast.IfExp:
         return ('ifexp', to_term(e.test, sc), to_term(e.body, sc), to_term(e.orelse, sc))
     if T is ast.Starred:
@@ -443,9 +462,42 @@ class Expander:
         """Unexpanded term (local names stay ('name', id))."""
         return to_term(expr, self._comp_scope(expr, self.scope(None)))
 
+    def _single_temps(self):
+        """{name: defining expr} of locals assigned exactly once from a non-name expression."""
+        if getattr(self, '_temps', None) is None:
+            cnt, payload = {}, {}
+            for ds in self.defs_at.values():
+                for d in ds:
+                    cnt[d.var] = cnt.get(d.var, 0) + 1
+                    if d.kind == 'assign' and not d.index and not isinstance(d.payload, ast.Name):
+                        payload[d.var] = d.payload
+            params = set(d.var for d in self.param_defs)
+            loads = {}
+            for n in ast.walk(self.fn.node):
+                if isinstance(n, ast.Name) and isinstance(n.ctx, ast.Load):
+                    loads[n.id] = loads.get(n.id, 0) + 1
+            # a temporary: assigned once, read once
+            self._temps = {k: v for k, v in payload.items()
+                           if cnt[k] == 1 and k not in params and loads.get(k, 0) == 1}
+        return self._temps
+
+    def raw_t(self, expr, depth=2):
+        """raw() with single-assignment temporaries replaced by their defining expression."""
+        t = self.raw(expr)
+        temps = self._single_temps()
+        for _ in range(depth):
+            mapping = {}
+            for s in subterms(t):
+                if s[0] == 'name' and s[1] in temps:
+                    mapping[s] = self.raw(temps[s[1]])
+            if not mapping:
+                break
+            t = subst(t, mapping)
+        return t
+
     def raw1(self, expr):
-        """Like raw(), but a name that is a single-assignment temporary is replaced by the
-        raw term of its defining expression (so `t = f(x); return t` reads as `return f(x)`)."""
+        """Like raw(), but a name that is a temporary (assigned once, read once, or the
+        single-assignment value that is returned) is replaced by its defining expression."""
         if isinstance(expr, ast.Name) and self.is_local(expr.id):
             n_defs = sum(1 for ds in self.defs_at.values() for d in ds if d.var == expr.id)
             is_param = any(d.var == expr.id for d in self.param_defs)
